@@ -53,7 +53,7 @@ def exc_sig(e):
 # ---------------------------------------------------------------------------------------------
 
 
-def representation_problems(b):
+def representation_problems(b, _depth=0):
     """Independent recomputation from b.bins; returns list of (name, expected, observed)."""
     probs = []
     bins = np.asarray(b.bins)
@@ -158,6 +158,20 @@ def representation_problems(b):
             if not r.ok or r.value != bins[i:j].tolist():
                 probs.append(("getitem_slice", bins[i:j].tolist(), r.describe() if not r.ok else r.value))
                 break
+    # a selection must answer for ITSELF (not with a cached answer of the binning it was taken from)
+    if _depth == 0 and n >= 2:
+        b.is_consecutive()
+        subs = [slice(0, n - 1), slice(1, n)]
+        if type(b).__name__ == "StaticBinning" and n >= 3:
+            subs += [np.array([0, n - 1]), np.array([0, 1])]
+        for sel in subs:
+            r = call(lambda: b[sel])
+            if r.ok and hasattr(r.value, "bins"):
+                for name, e, o in representation_problems(r.value, _depth=1):
+                    if name in ("is_consecutive", "numpy_bins", "masked_edges_vs_bins", "bin_count", "first_edge", "last_edge"):
+                        probs.append(("selection_" + name, e, o))
+                if probs:
+                    break
     r = call(b.as_static)
     if not r.ok or np.asarray(r.value.bins).tolist() != bins.tolist():
         probs.append(("as_static", bins.tolist(), r.describe() if not r.ok else np.asarray(r.value.bins).tolist()))
